@@ -134,6 +134,61 @@ def same_def(a, b):
     return a is not None and b is not None and (a.node, a.name) == (b.node, b.name)
 
 
+def origins(fa, expr, at, _seen=frozenset()):
+    """Like `origin`, for an object that is created in one of several places depending on the path (one
+    definition per case, early returns of a flattened helper): the list of creating definitions (no
+    duplicates); None if `expr` is not a plain name / field of self or some chain does not end in an assignment."""
+    nm = _ref_name(strip_cast(expr))
+    if nm is None:
+        return None
+    ds = fa.df.reaching(at, nm)
+    if not ds or any(d.kind != "assign" or d.value is None for d in ds):
+        return None
+    out = []
+    for d in ds:
+        if (d.node, d.name) in _seen:
+            return None
+        sub = origins(fa, d.value, d.node, _seen | {(d.node, d.name)}) if _ref_name(strip_cast(d.value)) is not None else None
+        for o in (sub if sub is not None else [d]):
+            if not any(same_def(o, x) for x in out):
+                out.append(o)
+    return out
+
+
+def map_shape(e):
+    """How a mapping is put together by the expression that creates it: (base, items, odd) — `base` the
+    mapping it copies (`R.copy()`, `dict(R)`, `{**R, ...}`, `dict(R, k=v)`, `R | {...}`; None if it starts
+    empty), `items` the [(constant key, value expression)] it adds, `odd` True when something else goes
+    in (a second mapping merged in, a computed key).  None if `e` does not create a mapping."""
+    e = strip_cast(e)
+    src = is_copy_of(e)
+    if src is not None:
+        return (src, [], False)
+    if isinstance(e, ast.Dict):
+        base, items, odd = None, [], False
+        for k, v in zip(e.keys, e.values):
+            if k is None:
+                if base is None and not items:
+                    base = v
+                else:
+                    odd = True
+            elif A.const_str(k) is not None:
+                items.append((A.const_str(k), v))
+            else:
+                odd = True
+        return (base, items, odd)
+    if isinstance(e, ast.Call) and isinstance(e.func, ast.Name) and e.func.id == "dict" and len(e.args) <= 1:
+        items = [(k.arg, k.value) for k in e.keywords if k.arg is not None]
+        odd = any(k.arg is None for k in e.keywords)
+        return (e.args[0] if e.args else None, items, odd)
+    if isinstance(e, ast.BinOp) and isinstance(e.op, ast.BitOr):
+        r = map_shape(e.right)
+        if r is not None and r[0] is None and isinstance(strip_cast(e.right), (ast.Dict, ast.Call)):
+            return (e.left, r[1], r[2])
+        return (e.left, [], True)
+    return None
+
+
 def fexpand(fa, expr, at, depth=14, _stack=()):
     """Like FA.expand, and fields of self that have one reaching assignment are expanded too."""
     bound = set()
@@ -362,7 +417,8 @@ class FlatInit:
         self.hash_defs = hd
         self.hash_def = hd[0]
         self.hash_call = None
-        self.hk = None
+        self.hk = None     # the one definition creating the hash input (None if there are several, see hks)
+        self.hks = []      # the definitions creating the hash input, one per case
         if len(hd) == 1 and hd[0].kind == "assign":
             v, at = strip_cast(hd[0].value), hd[0].node
             if _ref_name(v) is not None:
@@ -374,7 +430,8 @@ class FlatInit:
                 self.hash_at = at
                 a = A.arg_or_kw(v, 0, "effective_kwargs")
                 if a is not None:
-                    self.hk = origin(fa, a, at)
+                    self.hks = origins(fa, a, at) or []
+                    self.hk = self.hks[0] if len(self.hks) == 1 else None
         self.ek = self.final("effective_kwargs")
 
     def final(self, field):
@@ -425,6 +482,11 @@ class FlatInit:
 
     def denotes(self, expr, at, d):
         return same_def(origin(self.fa, expr, at), d)
+
+    def denotes_any(self, expr, at, defs):
+        """`expr` at `at` is, on every path, one of the objects created by `defs`"""
+        os_ = origins(self.fa, expr, at)
+        return bool(os_) and all(any(same_def(o, d) for d in defs) for o in os_)
 
 
 def sibling_reference_sites(ck, rule):
@@ -538,14 +600,19 @@ def check(ck):
     fl = FlatInit(ck)
     init = fl.fa
     HK_Q = FRA + "._compute_effective_kwargs_with_context_args"
-    hk, ek = fl.hk, fl.ek
-    stores = []
+    hks, ek = fl.hks, fl.ek
+    # where the reserved key is put on a mapping: subscript stores, and entries of the expression that creates the
+    # hash input (`{**effective, KEY: context_args}`, `dict(effective, KEY=context_args)`, ...), one per case
+    stores = []     # (statement, mapping expression, value expression)
     for s in init.stmts(ast.Assign):
         for t in s.targets:
             if isinstance(t, ast.Subscript) and A.const_str(init.expand(t.slice, init.nodes(s)[0]) if init.nodes(s) else t.slice) == RESERVED:
-                stores.append((s, t))
-    ok = hk is not None and len(stores) >= 1
-    where_r = init.where(stores[0][0]) if stores else init.where()
+                stores.append((s, t.value, s.value))
+    shapes = [(d, map_shape(d.value)) for d in hks]
+    inline = [(d, v) for (d, sh) in shapes if sh is not None for (k, v) in sh[1] if k == RESERVED]
+    n_sites = len(stores) + len(inline)
+    ok = bool(hks) and n_sites >= 1 and not any(sh is not None and sh[2] for (d, sh) in shapes)
+    where_r = init.where(stores[0][0]) if stores else (init.where(inline[0][0].stmt) if inline and inline[0][0].stmt is not None else init.where())
     if ok:
         ca_txt = {"self.context_args"}
         ds = init.df.reaching(fl.exit, "self.context_args")
@@ -562,25 +629,32 @@ def check(ck):
             # the raw argument is empty exactly when its normalised form is
             ca_txt |= raw
         base = conds(init, fl.hash_def.node)
-        for (s, t) in stores:
+        after_hash = init.cfg.reach([fl.hash_at], include_start=False)
+        cs = set()
+        for (s, m, v) in stores:
             at = init.nodes(s)[0]
             # on the hash input, holding the (normalised) context args
-            ok = ok and fl.denotes(t.value, at, hk)
-            ok = ok and fl.reads_final(s.value, at, "context_args")
+            ok = ok and fl.denotes_any(m, at, hks)
+            ok = ok and fl.reads_final(v, at, "context_args")
             # before the hash is taken
-            ok = ok and not (set(init.nodes(s)) & init.cfg.reach([fl.hash_at], include_start=False)) and fl.hash_at in init.cfg.reach(init.nodes(s))
-        # exactly when non-empty
-        cs = set()
-        for (s, t) in stores:
+            ok = ok and not (set(init.nodes(s)) & after_hash) and fl.hash_at in init.cfg.reach(init.nodes(s))
             cs |= relative(conds(init, s), base)
+        for (d, v) in inline:
+            ok = ok and fl.reads_final(v, d.node, "context_args")
+            ok = ok and d.node not in after_hash and fl.hash_at in init.cfg.reach([d.node])
+            cs |= relative(conds(init, d.node), base)
+        # exactly when non-empty
         ok = ok and holds_iff_nonempty(cs, ca_txt)
     ck.ob(R1, HK_Q + "::reserved-key", bool(ok), "context args enter the hash under %r iff non-empty" % RESERVED if ok else
           "context args are not added to the hash input under %r exactly when non-empty" % RESERVED, where_r)
-    src = is_copy_of(hk.value) if hk is not None else None
-    okc = src is not None and ek is not None and not same_def(hk, ek) and fl.denotes(src, hk.node, ek)
+    # every case of the hash input starts from a copy of the finished effective kwargs
+    okc = bool(hks) and ek is not None
+    for (d, sh) in shapes:
+        okc = okc and sh is not None and sh[0] is not None and not same_def(d, ek) and fl.denotes(sh[0], d.node, ek)
     if okc:
         # the copy is taken from the finished mapping, and the reserved key never lands in the mapping the body receives
         ek_names = fl.aliases_of(ek)
+        after_copy = init.cfg.reach([d.node for d in hks], include_start=False)
         for s in init.stmts((ast.Assign, ast.AugAssign, ast.Expr)):
             ids = init.nodes(s)
             if not ids:
@@ -591,12 +665,13 @@ def check(ck):
             elif isinstance(s, ast.Expr) and isinstance(s.value, ast.Call) and A.call_attr(s.value) in ("update", "setdefault", "pop", "clear", "popitem", "__setitem__"):
                 muts = [A.call_recv(s.value)] if A.call_recv(s.value) is not None else []
             for m in muts:
-                if _ref_name(m) in ek_names and fl.denotes(m, ids[0], ek) and set(ids) & init.cfg.reach([hk.node], include_start=False):
+                if _ref_name(m) in ek_names and fl.denotes(m, ids[0], ek) and set(ids) & after_copy:
                     okc = False
+    hk0 = hks[0] if hks else None
     ck.ob(R1, HK_Q + "::copy", bool(okc), "the hash input is a copy: effective_kwargs itself stays free of context args" if okc else
-          "the hash input is not a copy of effective_kwargs (context args would leak into the body's parameters)", init.where(hk.stmt) if hk is not None and hk.stmt is not None else init.where())
+          "the hash input is not a copy of effective_kwargs (context args would leak into the body's parameters)", init.where(hk0.stmt) if hk0 is not None and hk0.stmt is not None else init.where())
     ah = fl.hash_def.stmt
-    okh = fl.hash_call is not None and hk is not None and len(stores) >= 1 and all(fl.denotes(t.value, init.nodes(s)[0], hk) for (s, t) in stores)
+    okh = fl.hash_call is not None and bool(hks) and n_sites >= 1 and all(fl.denotes_any(m, init.nodes(s)[0], hks) for (s, m, v) in stores)
     ck.ob(R1, init.key(ah), okh, "arg_hash = hash(effective kwargs + context args)" if okh else
           "arg_hash is not computed from effective_kwargs_with_context_args", init.where(ah))
     rl = FA(ck, "runner_local.memento_run_local")
